@@ -431,8 +431,38 @@ impl Renderer {
                     vec!["probe".into(), m]
                 }
             }
+            "Q" => {
+                let e = match self.pick(3) {
+                    0 => format!("$((1000*(1+$#)+{m}))"),
+                    1 => format!("$(( (1 + $#) * 1000 + {m} ))"),
+                    _ => format!("$(({m}+1000+$#*1000))"),
+                };
+                // (an arithmetic expansion with blanks is one word only inside double quotes)
+                let e = if e.contains(' ') { format!("\"{e}\"") } else { e };
+                if real { vec!["./probe".into(), e, "$?".into()] } else { vec!["probe".into(), e] }
+            }
+            "setpp" => {
+                let mut w: Vec<String> = vec!["set".into(), "--".into()];
+                for a in ["a", "b", "c"].iter().take(n.n.max(0) as usize) {
+                    w.push(a.to_string());
+                }
+                w
+            }
+            "sete" => {
+                let on = n.n != 0;
+                match self.pick(3) {
+                    0 | 1 => vec!["set".into(), if on { "-e" } else { "+e" }.into()],
+                    _ => vec!["set".into(), if on { "-o" } else { "+o" }.into(), "errexit".into()],
+                }
+            }
             "tick" => vec!["tick".into()],
-            "cmd" => vec![n.s.clone()],
+            "cmd" => {
+                let mut w = vec![n.s.clone()];
+                for a in ["x", "y", "z"].iter().take(n.n.max(0) as usize) {
+                    w.push(a.to_string());
+                }
+                w
+            }
             "brk" | "cnt" => {
                 let name = if n.k == "brk" { "break" } else { "continue" };
                 if n.n == 1 && self.coin() { vec![name.into()] } else { vec![name.into(), n.n.to_string()] }
